@@ -110,6 +110,31 @@ Theorem nested_law_holds_on_every_history :
 Proof. exact nested_law_hist. Qed.
 Print Assumptions nested_law_holds_on_every_history.
 
+(* ---------- Dict(K, List(T)) ---------- *)
+Theorem inv_dict_of_lists_reachable :
+  forall (kv vld : Z -> option Z) (imn : Z) (imx : option Z) (ops : list ndop) (m : ndict),
+    NDInv (in_rng kv) (in_rng vld) imn imx m ->
+    Forall (fun p => NDInv (in_rng kv) (in_rng vld) imn imx (nd_after (snd p))) (ndict_run kv vld imn imx m ops).
+Proof. intros kv vld. apply ndict_inv_reachable; intros x y H; exists x; exact H. Qed.
+Print Assumptions inv_dict_of_lists_reachable.
+
+Theorem dict_of_lists_failing_op_inert :
+  forall (kv vld : Z -> option Z) (imn : Z) (imx : option Z) (m : ndict) (o : ndop) (e : exn),
+    nd_out (ndict_step kv vld imn imx m o) = Raise e ->
+    nd_after (ndict_step kv vld imn imx m o) = m /\ nd_events (ndict_step kv vld imn imx m o) = 0%nat.
+Proof. exact ndict_failing_inert. Qed.
+Print Assumptions dict_of_lists_failing_op_inert.
+
+Theorem dict_of_lists_law_holds_on_every_history :
+  forall (kv vld : Z -> option Z) (kdom kacc dom acc : Z -> bool),
+    (forall x y, kv x = Some y -> kdom y = true) -> (forall x y, kv x = Some y -> kacc x = true) ->
+    (forall x y, vld x = Some y -> dom y = true) -> (forall x y, vld x = Some y -> acc x = true) ->
+  forall (imn : Z) (imx : option Z) (ops : list ndop) (m : ndict) (i : Z),
+    ndict_ok kdom dom imn imx m = true ->
+    law_ndict_hist kdom kacc dom acc imn imx i m (ndict_run kv vld imn imx m ops) = [].
+Proof. exact ndict_law_hist. Qed.
+Print Assumptions dict_of_lists_law_holds_on_every_history.
+
 (* ---------- the op types enumerate the mutating methods ---------- *)
 Theorem mutator_list_complete :
   (forall m, In m list_mutators -> exists o, op_method o = m) /\ (forall o, In (op_method o) list_mutators) /\
@@ -120,7 +145,7 @@ Proof.
   - intros m H. cbn in H.
     repeat (destruct H as [<-|H]); try contradiction;
     [exists (DelInt 0)|exists (Iadd [])|exists (Imul 0)|exists (SetInt 0 0)|exists (Append 0)|exists Clear|exists (Extend [])
-    |exists (Insert 0 0)|exists (Pop None)|exists (Remove 0)|exists Reverse|exists (Sort false)]; reflexivity.
+    |exists (Insert 0 0)|exists (Pop None)|exists (Remove 0)|exists Reverse|exists (Sort 0 false)]; reflexivity.
   - intros o. destruct o; cbn; tauto.
   - intros m H. cbn in H.
     repeat (destruct H as [<-|H]); try contradiction;
@@ -146,6 +171,9 @@ Proof.
   - destruct ((0 <=? x) && (x <? 100)) eqn:E; [inversion H; subst; exact E|].
     destruct ((100 <=? x) && (x <? 200)) eqn:E2; inversion H; subst.
     apply andb_true_iff in E2. destruct E2 as [A B]. apply Z.leb_le in A. apply Z.ltb_lt in B.
+    apply andb_true_iff. split; [apply Z.leb_le|apply Z.ltb_lt]; auto with zarith.
+  - destruct ((0 <=? x) && (x <? 90)) eqn:E; inversion H; subst.
+    apply andb_true_iff in E. destruct E as [A B]. apply Z.leb_le in A. apply Z.ltb_lt in B.
     apply andb_true_iff. split; [apply Z.leb_le|apply Z.ltb_lt]; auto with zarith.
 Qed.
 Print Assumptions harness_validators_fit.
